@@ -74,6 +74,7 @@ static CC_HashSet *hs;
 static CC_HashSetIter it; static int it_valid, it_can_remove;
 static uint64_t universe[4096]; static size_t n_univ;
 static unsigned long long ord_log[4096]; static size_t ord_n; static int ord_on;
+static int load_bound_broken; /* C20: size > threshold right after a successful insertion */
 static char extra_phys[64]; /* out-value of remove/iter_remove: the table's dummy value, judged at L3 only */
 static void shim_reset(void) { hs = NULL; it_valid = it_can_remove = 0; n_univ = 0; }
 static void univ_add(uint64_t k) {
@@ -129,6 +130,7 @@ static void phys(void) {
     if (ord_on) { o(" "); O_LIST("ord"); for (size_t i = 0; i < ord_n; i++) o_item(ord_log[i]); o_end(); }
     o("%s", extra_phys);
     /* L2 walkers */
+    if (load_bound_broken) o(" WALK=load-bound-after-insert");
     if (total != ht->size) o(" WALK=chain-lengths-vs-size");
     if (ht->capacity == 0 || (ht->capacity & (ht->capacity - 1))) o(" WALK=capacity-not-pow2");
     if (block_size(ht->buckets) < ht->capacity * sizeof(TableEntry *)) o(" WALK=bucket-block-too-small");
@@ -141,7 +143,7 @@ static void phys(void) {
     }
 }
 static void do_op(Cmd *c) {
-    ord_on = 0; ord_n = 0; extra_phys[0] = 0;
+    ord_on = 0; ord_n = 0; extra_phys[0] = 0; load_bound_broken = 0;
     if (is_op(c, "new")) {
         CC_HashSetConf conf; conf_from_cmd(c, &conf);
         hs = NULL; it_valid = 0;
@@ -155,6 +157,7 @@ static void do_op(Cmd *c) {
     } else if (is_op(c, "add")) {
         uint64_t k = pos_u64(c, 0); univ_add(k); it_valid = 0;
         enum cc_stat st = cc_hashset_add(hs, mkkey(k)); o_stat(st); o(" ");
+        if (st == CC_OK && hs->table->size > hs->table->threshold) load_bound_broken = 1;
     } else if (is_op(c, "contains")) {
         o("st=- out=%d ", (int)cc_hashset_contains(hs, mkkey(pos_u64(c, 0))));
     } else if (is_op(c, "remove")) {
